@@ -973,10 +973,13 @@ impl<'a> HpoTerm<'a> {
     /// # Panics
     /// TODO    
     pub fn path_to_term(&self, other: &HpoTerm) -> Option<Vec<HpoTermId>> {
-        if other.parent_of(self) {
+        // The direct lineage is only the shortest path if no route via another
+        // common ancestor is shorter
+        let distance = self.distance_to_term(other);
+        if other.parent_of(self) && self.distance_to_ancestor(other) == distance {
             return self.path_to_ancestor(other);
         }
-        if self.parent_of(other) {
+        if self.parent_of(other) && other.distance_to_ancestor(self) == distance {
             return other.path_to_ancestor(self).map(|terms| {
                 terms
                     .iter()
